@@ -27,6 +27,9 @@ COMBOS = [  # documented illegal combinations and values (all must be diagnostic
     "void f(int a) volatile", "unsigned unknown f()", "void f(Zed a)", "void f(std::map<int,int> a)", "int f() +deref(pointer)",
     "void f(void (*cb)(int i +intent(out)))", "void f(void (*cb)(int *i +dimension(n+)))", "void f(void (*cb)(std::vector &v))",
     "void f(int *a +intent)", "void f(int *a, int n +implied)", "void f(int *a +rank())",
+    # a type takes ONE template argument (documented restriction): a list is rejected, not silently truncated
+    "int vector_sum(const std::vector<int,double> &arg)", "void f(std::vector<int,int> name)", "std::vector<int,long> f()",
+    "void f(std::vector<int, > a)", "void f(std::vector<,int> a)",
     "void f(int *a +rank=1e999)", "void f(int *a, int n +implied(size(3)))", "void f(int *a, int n +implied(size(a+1)))",
     "void f(int *a, int n +implied(size(a) 7))", "{", "void f(int a) {", "} f()", "\"{}\" f()", "MyInt::x f()", "ns f()", "std f()", "void f(std x)",
 ]
